@@ -1,0 +1,11 @@
+//go:build verif
+
+// Contracts for the verification machinery in /verif (comment-only; compiled only with -tags verif).
+
+package patch
+
+//@ func (Patch).GetAction
+//@   trusted
+//@   results a, err
+//@   ensures (err == nil) == actionOK(p)
+//@   ensures err == nil ==> a == actionOf(p)
